@@ -13,8 +13,8 @@ C12 — Equivalent spellings of Cache-Control behave identically.
 Every decision of the model reads Cache-Control through `parseCC` and then only through lookups
 (`alookup`) in the resulting association list. The theorems below say that those lookups do not
 depend on the spelling. PARTIAL: the single composed statement `parseCC (render sp ds) = canon ds`
-over an explicit spelling datatype is not assembled; its ingredients are proved separately for
-elements free of quoting syntax, and the metamorphic check runs canonical / respelled history
+over an explicit spelling datatype is not assembled; its ingredients are proved separately (list
+syntax for all well-formed elements including quoted-strings, `quoted_elements`), and the metamorphic check runs canonical / respelled history
 pairs (including quoted-pairs and quoted lists) through the real transport and the model.
 -/
 namespace Httpcache.C12
@@ -26,6 +26,20 @@ open Httpcache
 theorem ows_and_empty_elements (elems : List Str) (hp : ∀ e ∈ elems, e.all plainChar = true) :
     trimmedCSV (joinWith [','] elems) = (elems.map trimString).filter (fun p => !p.isEmpty) :=
   trimmedCSV_join elems hp
+
+/-- the same with quoting syntax: for EVERY list of well-formed elements (`closedElem`: quoted-strings
+    closed, no quoted-pair cut off, commas only inside quotes or escaped) the tokenizer yields exactly
+    the trimmed non-empty elements, so a directive that follows a quoted-string — whatever it contains,
+    escaped quotes and backslashes included — is never swallowed into it -/
+theorem quoted_elements (elems : List Str) (hp : ∀ e ∈ elems, closedElem e = true) :
+    trimmedCSV (joinWith [','] elems) = (elems.map trimString).filter (fun p => !p.isEmpty) :=
+  trimmedCSV_join_closed elems hp
+
+example : closedElem (str% "ext=\"C:\\\\\"") = true := by decide
+example : closedElem (str% " private=\"a, b\" ") = true := by decide
+/-- (test) a quoted-string ending in an escaped backslash closes where it should -/
+example : trimmedCSV (str% "max-age=3600, ext=\"C:\\\\\", no-store") = [str% "max-age=3600", str% "ext=\"C:\\\\\"", str% "no-store"] := by decide
+
 
 /-- several Cache-Control field lines are read as one comma-separated list (RFC 9110 §5.3) -/
 theorem field_lines_combined (h : Header) :
